@@ -296,6 +296,9 @@ def run(ch: Choices, opts: Dict[str, Any]) -> Dict[str, Any]:
         if qm.errors:
             raise Violation("remap", "remap|memory|" + qm.errors[0].split(" ")[0], {"errors": qm.errors[:3],
                                                                                   "trace": _tail(trace)})
+        if set(ex._used_physical_qubit_addresses) != set(cur.values()):
+            raise Violation("remap", "remap|used-physical-set-differs-from-mapped-set",
+                            {"used": sorted(ex._used_physical_qubit_addresses), "mapped": sorted(cur.values()), "trace": _tail(trace)})
         return cur
 
     # ---- host tasks -------------------------------------------------------
